@@ -12,12 +12,13 @@ func init() {
 		ID:         "C38",
 		Level:      "other",
 		Technique:  "sibling agreement of the two feature-resolution implementations (per resolved feature: the set of enum values that turn it on), exhaustiveness over the EditionFeatures struct, parent-first merge shape at every call site (static)",
-		Explain:    "Decides structural necessary conditions of feature resolution by inheritance: (1) the compact builder's unmarshalFeatureSet/unmarshalGoFeature (generated code path) and protodesc's mergeEditionFeatures (descriptor-proto path) assign the same set of resolved features, every field of filedesc.EditionFeatures is assigned by both, and for each boolean feature both compare the FeatureSet field against the same set of enum values (e.g. field presence = EXPLICIT or LEGACY_REQUIRED; legacy-required = LEGACY_REQUIRED); (2) every merge is parent-first: the override is applied on top of the features already inherited (the child's own features record initialised from, or the parent descriptor passed to, the merge) so a nearer explicit setting wins and unset features keep the inherited value.",
+		Explain:    "Decides structural necessary conditions of feature resolution by inheritance: (1) the compact builder's unmarshalFeatureSet/unmarshalGoFeature (generated code path) and protodesc's mergeEditionFeatures (descriptor-proto path) assign the same set of resolved features, every field of filedesc.EditionFeatures is assigned by both, and for each boolean feature both compare the FeatureSet field against the same set of enum values (e.g. field presence = EXPLICIT or LEGACY_REQUIRED; legacy-required = LEGACY_REQUIRED); (2) every merge is parent-first: the override is applied on top of the features already inherited (the child's own features record initialised from, or the parent descriptor passed to, the merge) so a nearer explicit setting wins and unset features keep the inherited value; (3) the legacy `packed` field option overrides the inherited repeated-field encoding with its value (true or false) in both builders.",
 		NotCovered: "edition defaults tables (binary defaults blob), the file→message→field initialisation order on concrete schemas, and behavioural equivalence of proto2/proto3 files with their editions translation.",
 		Quick:      all("./internal/filedesc", "./reflect/protodesc"),
 		Thorough:   all("./..."),
 		Run: func(c *Ctx) {
 			c.ruleFeatureFields("R-FEATURE-FIELDS")
+			c.ruleOptionOverride("R-FEATURE-FIELDS")
 		},
 	})
 }
@@ -148,4 +149,41 @@ func descIface(P *Program) *types.Interface {
 		}
 	}
 	return types.NewInterfaceType(nil, nil)
+}
+
+// legacy option overrides: an explicit `packed` field option overrides the
+// inherited repeated-field encoding in both directions, so both descriptor
+// builders assign the option's *value* (true or false) whenever it is present.
+func (c *Ctx) ruleOptionOverride(rule string) {
+	R, P := c.R, c.P
+	k := 0
+	for _, pkg := range []string{"internal/filedesc", "reflect/protodesc"} {
+		for _, fi := range P.FuncsIn(pkg) {
+			if fi.Decl.Body == nil {
+				continue
+			}
+			switch fi.Obj.Name() {
+			case "unmarshalFeatureSet", "mergeEditionFeatures", "unmarshalGoFeature":
+				continue
+			}
+			info := fi.Info()
+			walkAll(fi.Decl.Body, func(n ast.Node) bool {
+				as, ok := n.(*ast.AssignStmt)
+				if !ok || len(as.Lhs) != 1 || len(as.Rhs) != 1 {
+					return true
+				}
+				se, ok := unparen(as.Lhs[0]).(*ast.SelectorExpr)
+				if !ok || se.Sel.Name != "IsPacked" || namedTypeName(info.TypeOf(se.X)) != "internal/filedesc.EditionFeatures" {
+					return true
+				}
+				k++
+				_, isConst := constBool(info, as.Rhs[0])
+				R.Check(!isConst, rule, fi.Key+" packed option override #"+itoa(k), P.Pos(as), "assigns the option's value", "the explicit `packed` option sets the feature to a constant: `packed = false` (or true) no longer overrides the inherited encoding, so a proto2/proto3 file and its editions translation encode the field differently")
+				return true
+			})
+		}
+	}
+	if k < 4 {
+		R.Unk(rule, "packed option override", "", "expected the four option-override sites of the two descriptor builders; found "+itoa(k))
+	}
 }
